@@ -246,12 +246,12 @@ def r20_4(ctx):
 
 
 def run(ctx):
-    r20_1(ctx)
-    r20_2(ctx)
-    r20_3(ctx)
-    r20_4(ctx)
-    r20_5(ctx)
+    ctx.do(r20_1)
+    ctx.do(r20_2)
+    ctx.do(r20_3)
+    ctx.do(r20_4)
+    ctx.do(r20_5)
     from . import c10, c16
-    c10.r10_4_units(ctx, modules=("pop3_client", "mbox"))
-    c16.r16_1(ctx)
+    ctx.do(c10.r10_4_units, modules=("pop3_client", "mbox"))
+    ctx.do(c16.r16_1)
     ctx.note("R20.6 (sizes from the shared renderer) is decided by C16 R16.1")
